@@ -112,6 +112,15 @@ FAIL_CORPUS = [
         {"id": 2, "kind": "tf", "ins": [3], "outs": [4], "fn": "add", "k": 1},
         {"id": 3, "kind": "exec", "ins": [4], "outs": [5], "k": 1, "allcores": True},
         {"id": 4, "kind": "tf", "ins": [2, 5], "outs": [6], "fn": "lin", "k": 0}]},
+    # two branches of one scatter joined by a 2-input transformer, the branch on the SECOND (resp. first) port fails on
+    # element 0.1 and so delivers fewer tokens than the other: the join reads one token per port each round and must
+    # recognise the termination token on whichever port it arrives (else its next reading round blocks on a terminated port)
+    *[{"nports": 7, "sources": [{"port": 0, "value": [1, 2, 3, 4]}], "closed": [], "nodes": [
+        {"id": 0, "kind": "scatter", "ins": [0], "outs": [1, 2]},
+        {"id": 1, "kind": "tf", "ins": [1], "outs": [3], "fn": "add", "k": 1},
+        {"id": 2, "kind": "tf", "ins": [1], "outs": [4], "fn": "add", "k": 2, "fail": {"tag": "0.1"}},
+        {"id": 3, "kind": "tf", "ins": ins, "outs": [5], "fn": "lin", "k": 0},
+        {"id": 4, "kind": "gather", "ins": [5, 2], "outs": [6], "depth": 1}]} for ins in ([3, 4], [4, 3])],
     # an exception ESCAPES a step's run() (ScatterStep on a non-list token) while another branch (scatter -> delayed jobs ->
     # gather) is still running: `_handle_exception` calls close() INSIDE the raising step's task. In a workflow without
     # output ports nobody else closes the executor (run() only awaits the step tasks): before 92ab986 close() cancelled and
